@@ -71,6 +71,18 @@ PROPS["C05"] = {
     "assumptions": COMMON_ASSUME + ["names are sampled from alphabets of special characters, not all strings (the claim is partial in that respect)", "for collections only path and kind are compared: the server exposes no size/time/tag for collections"],
 }
 
+PROPS["C18"] = {
+    "engine": "wdsim", "level": "exploration", "race": True,
+    "quick": {"max_runs": 100000000, "budget_s": 50, "recheck": 20, "calibration_runs": 32},
+    "thorough": {"max_runs": 1000000000, "budget_s": 900, "recheck": 40, "calibration_runs": 64},
+    "rule": "one evaluation = one seeded run of one of two profiles, built with -race. (1) concurrent: 2-6 caller tasks x 3-20 operations (all webdav.Client methods and raw requests) on disjoint subtrees of ONE shared webdav.Handler{LocalFileSystem} and ONE shared webdav.Client; a seeded scheduler (unique fake wake-up instants at every seam: transport entry/return, each body chunk, each disk call, each caller step) decides every interleaving; oracle: per-task observations and final subtree == the task's solo run, no race report with a library frame; a calibration probe (deliberately racy word) must be reported in >= 80% of dedicated runs. (2) upload: Create/Write.../Close against a scripted or the real server: server reads k bytes then answers 2xx/3xx/4xx/5xx, drops or stalls; body closed before return or asynchronously; cancellation/deadline before Create, during the upload, while stalled, or never; oracle: Write/Close return, Close after the outcome, nil iff 2xx else the failure (status via errors.As, DAV:error kept, transport/context error wrapped), no library goroutine left, bytes intact. Non-trivial and distinct = distinct cross-task seam orders (profile 1) plus distinct (fault class, size bucket, chunking) upload cases (profile 2).",
+    "real_vs_stub": {
+        "real": ["webdav.Client (shared), its upload goroutine, io.Pipe and completion channel", "net/http.Client above the simulated RoundTripper", "webdav.Handler (shared), LocalFileSystem on tmpfs", "Go race detector on all of the above"],
+        "stub": ["the wire (in-process RoundTripper honouring the RoundTripper contract: always closes the body, before or after returning; honours the context)", "the scripted server of the upload profile", "goroutine scheduling between seams is Go's own: the simulator decides the order of seam events, the race detector covers what happens between them"],
+    },
+    "assumptions": COMMON_ASSUME + ["logical interference that needs a preemption between two non-seam instructions of one request is out of reach (data races there are still reported)", "tasks are serialised by fake-time sleeps only, which create no happens-before edge for the race detector (measured per batch by the calibration probe)", "mode N (real net/http over simulated connections) is not built; the RoundTripper contract is modelled by the stub"],
+}
+
 MANIFEST_TEXT = {
     "C01": {
         "technique": "deterministic simulation: seeded multi-client request histories against the real handler and LocalFileSystem on a simulated disk seam, refinement-checked step by step against an executable RFC 4918 resource-tree model",
@@ -101,6 +113,12 @@ MANIFEST_TEXT = {
         "level_text": "Seeded exploration of API call sequences over two stores, six endpoint spellings and special-character names; every client result is compared with what the backend reports directly, every wire exchange with the C01 model. Partial: the universal quantification over all strings is sampled from alphabets.",
         "design_ref": "DESIGN.md section 3 / C05",
         "level_note": "Trusted: the harness's own name resolver (RFC 3986) and the in-memory store. Collections: only path and kind are compared.",
+    },
+    "C18": {
+        "technique": "deterministic simulation under the race detector: seeded scheduling of concurrent caller tasks at every seam (unique fake-time wake-ups in a synctest bubble) with a solo-run differential oracle; fault-injected upload protocol runs (early answer, partial read, drop, stall + cancellation, asynchronous body close) with hang detection by bubble deadlock",
+        "level_text": "Seeded exploration over schedules and fault sequences. Interleavings are chosen by the PRNG, not the Go scheduler, so a failure replays; 'never hangs' is decidable because a bubble deadlock is an event; the race detector still sees the tasks as unordered (calibrated every run).",
+        "design_ref": "DESIGN.md section 3 / C18",
+        "level_note": "Trusted: the stub transport's reading of the RoundTripper contract. Preemption is only controlled at seams. Race reports are detected once per process and replayed in fresh processes.",
     },
     "C17": {
         "technique": "deterministic simulation: every response of seeded histories, including histories with OS error kinds injected at the disk seam, scanned for the host path",
